@@ -680,3 +680,15 @@ mod test {
         assert_eq!(ty!(apply (item 0) (infer 0)), ty);
     }
 }
+
+/// Verification hook: the crate-private guidance merge (anti-unification of a new answer
+/// into the current guidance), callable by a conformance harness.
+#[cfg(chalk_verif)]
+pub fn verif_merge_into_guidance<I: Interner>(
+    interner: I,
+    root_goal: &Canonical<InEnvironment<Goal<I>>>,
+    guidance: Canonical<Substitution<I>>,
+    answer: &Canonical<ConstrainedSubst<I>>,
+) -> Canonical<Substitution<I>> {
+    merge_into_guidance(interner, root_goal, guidance, answer)
+}
